@@ -125,6 +125,7 @@ func H_C07_Crash() {
 	if vrt.Symbolic() {
 		base = fs.Snapshot()
 	}
+	_ = base
 	maxSize := vMaxSizes[vrt.Choose("maxsize", len(vMaxSizes))]
 	wbuf := []int{4, 9, 64}[vrt.Choose("wbuf", 3)]
 	steps := 3
